@@ -201,18 +201,12 @@ def run(tier, seed, replay=None):
                 rep.oracle_failures.append({**cj, "clause": "well-formed invocation triggers a validation diagnostic", "errors": errs[:4]})
             elif r["rc"] != 0:
                 rep.count("control-rejected-for-another-reason:" + PC.classify_reject(PC.Eval(plan, {**r, "ran": False}, {"rc": 1, "stdout": "", "stderr": ""}))[:50])
-            if mv is not None and any(k_ == "cfgdup" for k_, _, _ in plan.items):
-                # duplicate item names inside one block (one per `cfg` alternative) are outside the Lean model of validate.rs (its look-up
-                # removes the first match; the code's map keeps the last): judged by rustc alone
-                rep.count("model-not-applicable:duplicate-item-names")
-            elif mv is not None:
+            if mv is not None:
                 rep.disagreements.append({**cj, "what": "model reports a diagnostic for a well-formed invocation", "model": mv})
             continue
         want = "error: " + MSG[defect]
         if errs != [want]:
             rep.oracle_failures.append({**cj, "clause": "exactly the macro's diagnostic for this defect and nothing else", "expected": [want], "errors": errs[:5]})
-        if mv != MSG[defect] and any(k_ == "cfgdup" for k_, _, _ in plan.items):
-            rep.count("model-not-applicable:duplicate-item-names")
-        elif mv != MSG[defect]:
+        if mv != MSG[defect]:
             rep.disagreements.append({**cj, "what": "model and implementation disagree on the diagnostic", "model": mv, "impl": errs[:3]})
     return rep.finish()
